@@ -149,6 +149,22 @@ func (matrix *DenseFloat32Matrix) SLICE(rfrom, rto, cfrom, cto int) *DenseFloat3
   m.cols = cto - cfrom
   return &m
 }
+func (matrix *DenseFloat32Matrix) AsDenseFloat32Vector() DenseFloat32Vector {
+  if matrix.rows < matrix.rowMax || matrix.cols < matrix.colMax {
+    // matrix is a slice of a larger matrix, return the elements
+    // of the slice
+    n, m := matrix.Dims()
+    v := make([]float32, n*m)
+    for i := 0; i < n; i++ {
+      for j := 0; j < m; j++ {
+        v[i*m + j] = matrix.values[matrix.index(i, j)]
+      }
+    }
+    return DenseFloat32Vector(v)
+  } else {
+    return DenseFloat32Vector(matrix.values)
+  }
+}
 /* matrix interface
  * -------------------------------------------------------------------------- */
 func (matrix *DenseFloat32Matrix) CloneMatrix() Matrix {
@@ -250,7 +266,7 @@ func (matrix *DenseFloat32Matrix) Tip() {
   matrix.rowMax, matrix.colMax = matrix.colMax, matrix.rowMax
 }
 func (matrix *DenseFloat32Matrix) AsVector() Vector {
-  return DenseFloat32Vector(matrix.values)
+  return matrix.AsDenseFloat32Vector()
 }
 func (matrix *DenseFloat32Matrix) storageLocation() uintptr {
   return uintptr(unsafe.Pointer(&matrix.values[0]))
@@ -339,7 +355,7 @@ func (matrix *DenseFloat32Matrix) IsSymmetric(epsilon float64) bool {
   return true
 }
 func (matrix *DenseFloat32Matrix) AsConstVector() ConstVector {
-  return DenseFloat32Vector(matrix.values)
+  return matrix.AsDenseFloat32Vector()
 }
 /* implement ScalarContainer
  * -------------------------------------------------------------------------- */
